@@ -102,3 +102,27 @@ func TestDebugLayout(t *testing.T) {
 		})
 	}
 }
+
+// TestDebugTexts prints the text boxes of every page of $VERIF_DOC.
+func TestDebugTexts(t *testing.T) {
+	doc := os.Getenv("VERIF_DOC")
+	if doc == "" {
+		t.Skip("no VERIF_DOC")
+	}
+	eng := os.Getenv("VERIF_ENGINE")
+	if eng == "" {
+		eng = "pango"
+	}
+	r, err := wr.Render(doc, wr.Opts{Engine: eng, Zoom: 1})
+	if err != nil {
+		t.Fatal(err)
+	}
+	for pi, p := range r.Pages {
+		wr.WalkBoxes(p, func(b bo.Box) bool {
+			if tb, ok := b.(*bo.TextBox); ok {
+				fmt.Printf("page %d text %q at (%v,%v) w %v\n", pi, tb.TextS(), tb.PositionX, tb.PositionY, tb.Width)
+			}
+			return true
+		})
+	}
+}
